@@ -391,6 +391,18 @@ def main():
                     expect[line] = f"ok {ntk}"
                 else:
                     expect[line] = arch
+    # payloads around 2^16 (a length field narrower than it should be shows here) -- few, they are long lines
+    for name, n in (("s", 65535), ("s", 65536), ("v1", 65537), ("v4", 70000), ("B.s", 66000), ("L.s", 65536)) + \
+            ((("s", 1 << 20), ("v8", (1 << 20) + 8), ("M.s.v4", 300000)) if thorough else ()):
+        t = types[name]
+        pay = rbytes(rng, n)
+        v = [pay, b"x"] if name == "L.s" else ([(b"k", pay)] if name == "M.s.v4" else pay)
+        nv = norm(t, v)
+        ntk = " ".join(toks(t, nv))
+        for op in ("rt", "save"):
+            line = f"{op} {name} {ntk}"
+            casesA.append(line)
+            expect[line] = f"ok {ntk} eof=1" if op == "rt" else hexs0(py_save(t, nv))
     for _ in range(300 if thorough else 60):
         casesA.append("wr " + " ".join(hexs0(rbytes(rng, rng.choice((0, 0, 1, 2, 7, 8, rng.randrange(0, 70))))) for _ in range(rng.randrange(0, 6))))
     casesA = list(dict.fromkeys(casesA))
@@ -412,6 +424,10 @@ def main():
             casesB.append(f"load{'+' if rng.random() < 0.15 else ''} {name} {hexs0(m)}")
             if name in serializable and rng.random() < 0.3:
                 casesB.append(f"sload {name} {hexs0(m)}")
+        # one archive object used twice (str() must restart at 0)
+        ms2 = mutations(rng, a, False)
+        casesB.append(f"load2 {name} {hexs0(rng.choice(ms2))} {hexs0(a)}")
+        casesB.append(f"load2 {name} {hexs0(a)} {hexs0(rng.choice(ms2))}")
         # an archive of one type read as another type
         other = rng.choice(TYPES)
         casesB.append(f"load {other} {hexs0(a)}")
@@ -422,7 +438,7 @@ def main():
             for h in hs[:rng.randrange(1, 8)]:
                 L = struct.unpack_from("<I", a, h)[0]
                 script.append(rng.choice(("s", "n s", "r%d" % L, "r%d" % L, "e r%d" % L, "n n r%d" % L, "r%d" % max(0, L + rng.choice((-1, 1, 4))))))
-            script.append(rng.choice(("e", "n", "s", "r0", "r4", "e e")))
+            script.append(rng.choice(("e", "n", "s", "r0", "r4", "e e", "z s e", "m n s", "z n")))
             casesB.append(f"ops {hexs0(a)} {' '.join(script)}")
             ms = mutations(rng, a, False)
             casesB.append(f"ops {hexs0(rng.choice(ms))} {' '.join(script)}")
@@ -455,11 +471,11 @@ def main():
         dist[w[0]] = dist.get(w[0], 0) + 1
         w[0] = w[0].rstrip("+")
         kd = "err" if "err " in om else ("ok" if om.startswith("ok") else "bytes")
-        if w[0] in ("load", "sload", "ops"):
+        if w[0] in ("load", "sload", "load2", "ops"):
             kk = om.split(" @")[0] if w[0] != "ops" else ("err " + om.split("err ")[1].split()[0] if "err " in om else "ok")
             kk = kk if kk.startswith("err") else "ok"
             kinds[kk] = kinds.get(kk, 0) + 1
-        if kd == "err" or (kd in ("ok", "bytes") and len(cs.split()) >= 5) or (w[0] in ("load", "sload") and kd == "ok" and len(om.split()) >= 4):
+        if kd == "err" or (kd in ("ok", "bytes") and len(cs.split()) >= 5) or (w[0] in ("load", "sload", "load2") and kd == "ok" and len(om.split()) >= 4):
             c.nontrivial.add(cs)
     c.extra_cov["op_distribution"] = dist
     c.extra_cov["load_outcomes_in_model"] = kinds
@@ -477,12 +493,14 @@ def main():
         if op in ("rt", "srt", "crt", "zrt", "save", "ssave"):
             if cs in expect and o != expect[cs]:
                 bad.append((k, "round trip / serialization differs from the value (python oracle)"))
-        elif op in ("load", "sload"):
+        elif op in ("load", "sload", "load2"):
+            if op == "load2":
+                w = [w[0], w[1], w[3]]
             if o in ERRS:
                 continue
             if not o.startswith("ok"):
                 bad.append((k, "load ended in something else than a value or an archive_error"))
-            elif op == "load":
+            elif op in ("load", "load2"):
                 ow = o.split()
                 ptr = ow[-1]
                 if not ptr.startswith("@"):
